@@ -223,7 +223,7 @@ pub fn run(ctx: &Ctx) -> Report {
     for i in 0..n {
         let cfg = Cfg::make(&mut rng, (i % 4) as u8);
         let o = GenOpts { max_files: 4, max_piece: if CONSTS.scaled { 2 * CONSTS.block } else { CONSTS.chunk * 2 + 100 },
-            max_total: if CONSTS.scaled { 8 * CONSTS.block } else if i % 6 == 5 { 9 << 20 } else { 600_000 }, long_name_chance: (0, 1), flushes: false };
+            max_total: if CONSTS.scaled { 8 * CONSTS.block } else if i % 6 == 5 { 9 << 20 } else { 600_000 }, long_name_chance: if CONSTS.scaled { (0, 1) } else { (1, 25) }, flushes: false };
         let ops = gen_valid_ops(&mut rng, &o);
         let names: Vec<String> = ops.iter().filter_map(|o| match o { Op::Start(n) | Op::Add { name: n, .. } => Some(n.clone()), _ => None }).collect();
         let hist = gen_history(&mut rng, &names, 30);
